@@ -16,7 +16,8 @@ def cond_branches_on_call(f, call):
             continue
         seen.add(x)
         for u in f.users.get(x, ()):
-            if u.op in ('icmp', 'zext', 'trunc', 'xor', 'and', 'sext', 'bitcast', 'ptrtoint'):
+            if u.op in ('icmp', 'zext', 'trunc', 'xor', 'and', 'sext', 'bitcast', 'ptrtoint', 'phi', 'select'):
+                # phi / select: `c ? call() : -1`
                 work.append(u.id)
             elif u.op == 'store' and f.strip(u.ops[0]) in (['i', x], f.strip(['i', x])):
                 a = f.strip(u.ops[1])
@@ -334,6 +335,42 @@ def run(ctx, rep):
     rep.check(len(mc) == 2 and len(pad) == 1, 'R-C04-6', 'blockcmp: padding [pos_size, block_size) compared with zero', b.file, '', function='blockcmp', construct='padding')
 
 
+def _alternatives(f, o, depth=0):
+    """{(condition expression, outcome) or None: expression} -- the values an operand can take when it is chosen by `c ? a : b`
+    (phi / select, possibly parked in a single-assignment local); a plain operand gives {None: expr}"""
+    o = f.strip(o)
+    if o[0] == 'i' and depth < 4:
+        i = f.insts[o[1]]
+        if i.op == 'load':
+            a = f.strip(i.ops[0])
+            if a[0] == 'i' and f.insts[a[1]].op == 'alloca':
+                sts = [u for u in f.users.get(a[1], ()) if u.op == 'store' and f.strip(u.ops[1]) == a]
+                if len(sts) == 1 and f.inst_of(sts[0].ops[0]) is not None and f.inst_of(sts[0].ops[0]).op in ('phi', 'select'):
+                    return _alternatives(f, sts[0].ops[0], depth + 1)
+        if i.op == 'select':
+            from ..guards import normalise
+            a_, pol = normalise(f, i.ops[0], True)
+            return {(a_, pol): f.expr(i.ops[1]), (a_, not pol): f.expr(i.ops[2])}
+        if i.op == 'phi' and len(i.ops) == 2:
+            from ..guards import normalise
+            res = {}
+            for pb, v in zip(i.inc, i.ops):
+                # the edge into the join comes from one side of a two-way branch
+                src = pb
+                preds = f.pred[src]
+                t = f.term(src)
+                if not (t.op == 'br' and len(t.ops) == 3) and len(preds) == 1:
+                    t = f.term(preds[0]); side_block = src
+                else:
+                    side_block = i.block
+                if t.op == 'br' and len(t.ops) == 3:
+                    a_, pol = normalise(f, t.ops[0], t.ops[2][1] == side_block)
+                    res[(a_, pol)] = f.expr(v)
+            if len(res) == 2:
+                return res
+    return {None: f.expr(o)}
+
+
 def memhash_pairing(P, rep, rid):
     """every memhash call passes a matched (kind, seed) pair: (state->hash, state->hashseed) or (state->prevhash, state->prevhashseed);
     and when both kinds are used for one decision, the previous kind is the one selected by the rehash flag"""
@@ -344,21 +381,31 @@ def memhash_pairing(P, rep, rid):
         if not (f.file or '').startswith('cmdline/'):
             continue
         for c in f.calls('memhash'):
-            k, sd = f.expr(c.ops[0]), f.expr(c.ops[1])
-            if not (k.endswith('hash') and 'hash' in sd):
+            ka, sa_ = _alternatives(f, c.ops[0]), _alternatives(f, c.ops[1])
+            if set(ka) != set(sa_):
+                # kind and seed are selected by different conditions: cannot be a matched pair on every path
+                if any(v.endswith('hash') for v in ka.values()):
+                    rep.fail(rid, '%s: memhash kind/seed selection' % base(f.name), c.loc(), 'kind chosen by %s, seed chosen by %s' % (sorted(map(str, ka)), sorted(map(str, sa_))), function=base(f.name), construct='memhash pair selection')
+                    n += 1
                 continue
-            kk = k.split('->')[-1]; ss = sd.lstrip('&').split('->')[-1].replace('[0]', '')
-            ok = (kk, ss) in (('hash', 'hashseed'), ('prevhash', 'prevhashseed'), ('besthash', 'hashseed'))
-            det = 'memhash(%s, %s)' % (k, sd)
-            # the precomputed new-kind hash kept aside for the store-back (rehandle[]) is by design computed under rehash
-            if ok and kk in ('hash', 'prevhash') and 'rehandle' not in f.expr(c.ops[2]):
-                gs = [(a, p_) for a, p_ in guards_of(f, c) if a in ('rehash', 'arg->prevhash', 'prevhash')]
-                if gs:
-                    want = kk == 'prevhash'
-                    ok = all(p_ is want for a, p_ in gs[-1:])
-                    det += ' under %s%s' % ('' if gs[-1][1] else '!', gs[-1][0])
-            rep.check(ok, rid, '%s: %s' % (base(f.name), det), c.loc(), '', function=base(f.name), construct='memhash pair %s/%s' % (kk, ss))
-            n += 1
+            for key in sorted(ka, key=str):
+                k, sd = ka[key], sa_[key]
+                if not (k.endswith('hash') and 'hash' in sd):
+                    continue
+                kk = k.split('->')[-1]; ss = sd.lstrip('&').split('->')[-1].replace('[0]', '')
+                ok = (kk, ss) in (('hash', 'hashseed'), ('prevhash', 'prevhashseed'), ('besthash', 'hashseed'))
+                det = 'memhash(%s, %s)' % (k, sd)
+                # the precomputed new-kind hash kept aside for the store-back (rehandle[]) is by design computed under rehash
+                if ok and kk in ('hash', 'prevhash') and 'rehandle' not in f.expr(c.ops[2]):
+                    gs = [(a, p_) for a, p_ in guards_of(f, c) if a in ('rehash', 'arg->prevhash', 'prevhash')]
+                    if key is not None and key[0] in ('rehash', 'arg->prevhash', 'prevhash'):
+                        gs = gs + [key]          # selected by `rehash ? prev : current`
+                    if gs:
+                        want = kk == 'prevhash'
+                        ok = all(p_ is want for a, p_ in gs[-1:])
+                        det += ' under %s%s' % ('' if gs[-1][1] else '!', gs[-1][0])
+                rep.check(ok, rid, '%s: %s' % (base(f.name), det), c.loc(), '', function=base(f.name), construct='memhash pair %s/%s' % (kk, ss))
+                n += 1
             rep.analysed(f)
     return n
 
